@@ -116,12 +116,12 @@ Proof.
   intros; reflexivity.
 Qed.
 
-Lemma init_partA_vpart g t nk : NoDup (node_ids g) -> (nk <> [] \/ node_ids g <> []) -> vpart (node_ids g) (init_partA g t nk).
+Lemma init_partA_vpart g t nk : NoDup (node_ids g) -> vpart (node_ids g) (init_partA g t nk).
 Proof.
-  intros Hnd Hne. unfold init_partA. destruct nk as [|s0 nk'].
-  - destruct Hne as [H|H]; [congruence|]. split.
+  intros Hnd. unfold init_partA. destruct nk as [|s0 nk'].
+  - destruct (node_ids g) as [|v0 l] eqn:En; [split; [apply Permutation_refl|constructor]|]. rewrite <- En in *. split.
     + simpl. rewrite app_nil_r. apply sortN_perm. auto.
-    + constructor; auto. intro E. apply H. pose proof (sortN_perm _ Hnd) as P. rewrite E in P. apply Permutation_nil in P. auto.
+    + constructor; auto. intro E. pose proof (sortN_perm _ Hnd) as P. rewrite E, En in P. apply Permutation_nil in P. discriminate.
   - set (nk := s0 :: nk'). split.
     + eapply perm_trans.
       * apply (concat_perm_pointwise _ (fun k => filter (fun v => eqb lexleb (nkey g t nk v) k) (node_ids g))).
@@ -139,7 +139,7 @@ Proof.
       rewrite E in Hin. contradiction.
 Qed.
 
-Theorem canon_isoA g t nk ek : wf g -> (nk <> [] \/ node_ids g <> []) ->
+Theorem canon_isoA g t nk ek : wf g ->
   fst (canon_searchA g t nk ek) <> None /\
   forall lab perm, fst (canon_searchA g t nk ek) = Some (lab, perm) ->
     lab = labelA g t nk ek perm /\
@@ -150,7 +150,7 @@ Theorem canon_isoA g t nk ek : wf g -> (nk <> [] \/ node_ids g <> []) ->
     (forall u v, In u (node_ids g) -> In v (node_ids g) ->
        find_arc (canon_graph g perm) (cid perm u) (cid perm v) = find_arc g u v).
 Proof.
-  intros Hw Hne. pose proof (init_partA_vpart g t nk (proj1 Hw) Hne) as Hvp.
+  intros Hw. pose proof (init_partA_vpart g t nk (proj1 Hw)) as Hvp.
   rewrite canon_searchA_fold. split.
   - apply fold_visit_some. left. unfold leaves_ofA.
     apply (leaves_nonempty _ lexleb IRInst.lexleb_total (fun a b c H1 H2 => IRInst.lexleb_trans a b c H1 H2) IRInst.lexleb_antisym
